@@ -124,6 +124,9 @@ func (w *world) allDelivered() []delivered {
 
 func e2eRun(c *Ctx, seed int64, spec *e2eSpec, dir string) *e2eOutcome {
 	rng := rand.New(rand.NewSource(seed))
+	// any time of day (log windows, look-back steps and cache ages are computed from
+	// instants, the logs are kept per calendar day)
+	time.Sleep(time.Duration(rng.Intn(86400)) * time.Second)
 	w := newWorld(dir, spec.Conf, rng)
 	out := &e2eOutcome{w: w, spec: spec}
 	w.recv.Disp.consume = spec.Consume
